@@ -16,130 +16,151 @@ static void check_case(vg::Src& s, vh::Ctx& c)
     size_t n = sc.fc.m.n;
     SplRun r = run_spl(sc, c);
     const double eps = DBL_EPSILON;
-    size_t limited = 0, checked = 0, skipped_equal = 0;
+    size_t checked = 0, skipped_equal = 0, limited_total = 0;
     bool implicit_matters = false;
-    const bool linear = sc.n == 1.0;
-    const double tol = sc.tol;
-    for (size_t i = 0; i < n; ++i)
+    size_t rounds = s.weighted({ 150, 70, 36 }) + 1;  // 1-3 steps with the same eroder object
+    c.label("rounds=" + std::to_string(rounds));
+    for (size_t round = 0; round < rounds; ++round)
     {
-        if (terminal(r, i))
-            continue;
-        double zi = r.z[i], ei = r.e[i];
-        if (!std::isfinite(ei))
-            c.fail("not-finite", "node " + std::to_string(i));
-        double fl = floor_of(r, i);
-        if (zi <= fl)
-            continue;  // lake: C12
-        double znew = zi - ei;
-        bool is_limited = vg::biteq(ei, zi - (fl + DBL_MIN));
-        // terms of the discrete equation
-        LD Rres = static_cast<LD>(znew) - zi;
-        LD scale = std::fabs(znew) + std::fabs(zi);
-        LD deriv_sum = 1;
-        bool equal_rec = false;
-        LD Fsum_lin = 0, num_lin = zi;  // exact solution for n = 1
-        LD F1 = 0, d1 = 1, zr1 = 0;     // single receiver (n != 1)
-        for (size_t k = 0; k < r.st.rec_count[i]; ++k)
+        std::string tag = "step#" + std::to_string(round + 1) + ": ";
+        if (round > 0)
         {
-            size_t j = R(r.st, i, k);
-            if (r.z[j] > zi)
-                continue;  // higher receiver: does not contribute (lake spill)
-            if (r.z[j] == zi)
-                equal_rec = true;
-            LD zj = static_cast<LD>(r.z[j]) - r.e[j];
-            LD d = D(r.st, i, k);
-            LD F = static_cast<LD>(r.kn[i]) * sc.dt * powl(static_cast<LD>(r.area[i]) * W(r.st, i, k), static_cast<LD>(sc.m));
-            LD drop = (static_cast<LD>(znew) - zj) / d;
-            if (linear)
-            {
-                Rres += F * drop;
-                Fsum_lin += F / d;
-                num_lin += F / d * zj;
-            }
-            else
-            {
-                Rres += F * powl(drop < 0 ? 0 : drop, static_cast<LD>(sc.n));
-                F1 = F;
-                d1 = d;
-                zr1 = zj;
-            }
-            LD dr = fabsl(static_cast<LD>(znew) - zj) / d;
-            LD deriv = linear ? F / d : F * sc.n * powl(dr > 0 ? dr : 1e-300L, static_cast<LD>(sc.n) - 1) / d;
-            scale += deriv * (fabsl(static_cast<LD>(zi)) + fabsl(static_cast<LD>(znew)) + fabsl(zj));
-            deriv_sum += deriv;
-            LD delta0 = static_cast<LD>(zi) - zj;
-            LD strength = linear ? F / d : F / powl(d, static_cast<LD>(sc.n)) * powl(delta0 > 0 ? delta0 : 1e-300L, static_cast<LD>(sc.n) - 1);
-            if (strength > 1e-6L && strength < 1e6L)
-                implicit_matters = true;
+            std::string what = next_round(sc, r, s, c);
+            c.desc += " |" + what;
+            if (c.verbose)
+                std::cout << "STEP" << what << std::endl;
         }
-        std::string at = "node " + std::to_string(i) + " (z=" + vg::fmt(zi) + ", erosion=" + vg::fmt(ei) + ", new=" + vg::fmt(znew) + ", floor=" + vg::fmt(fl) + ", n=" + vg::fmt(sc.n) + ")";
-        if (is_limited)
+        size_t limited = 0;
+        const bool linear = sc.n == 1.0;
+        const double tol = r.spl->tolerance();
+        for (size_t i = 0; i < n; ++i)
         {
-            ++limited;
-            // erosion may be limited only when the model says the solution reaches the floor
-            LD margin = 64 * eps * (fabsl(static_cast<LD>(zi)) + fabsl(static_cast<LD>(fl))) + 4 * DBL_MIN;
-            if (equal_rec)
+            if (terminal(r, i))
                 continue;
-            if (linear)
+            double zi = r.z[i], ei = r.e[i];
+            if (!std::isfinite(ei))
+                c.fail("not-finite", "node " + std::to_string(i));
+            double fl = floor_of(r, i);
+            if (zi <= fl)
             {
-                LD zstar = num_lin / (1 + Fsum_lin);
-                // rounding of the quotient is relative to the magnitude of its operands
-                LD m2 = margin + 64 * eps * fabsl(zstar);
-                if (zstar > fl + m2)
-                    c.fail("limited-without-need", at + ": erosion was limited although the exact solution " + vg::fmt(static_cast<double>(zstar)) + " stays above the floor");
+                // no receiver is lower: the sum over lower receivers is empty and the equation
+                // reduces to new - old = 0
+                if (ei != 0)
+                    c.fail("lake-residual", tag + "node " + std::to_string(i) + " (z=" + vg::fmt(zi) + ") has no lower receiver (lowest post-erosion receiver " + vg::fmt(fl) + ") but erosion " + vg::fmt(ei) + ": residual of the empty sum is " + vg::fmt(-ei));
+                continue;
             }
-            else
+            double znew = zi - ei;
+            bool is_limited = vg::biteq(ei, zi - (fl + DBL_MIN));
+            // terms of the discrete equation
+            LD Rres = static_cast<LD>(znew) - zi;
+            LD scale = std::fabs(znew) + std::fabs(zi);
+            LD deriv_sum = 1;
+            bool equal_rec = false;
+            LD Fsum_lin = 0, num_lin = zi;  // exact solution for n = 1
+            LD F1 = 0, d1 = 1, zr1 = 0;     // single receiver (n != 1)
+            for (size_t k = 0; k < r.st.rec_count[i]; ++k)
             {
-                LD delta0 = static_cast<LD>(zi) - zr1;
-                LD G = F1 / powl(d1, static_cast<LD>(sc.n));
-                if (sc.n > 1)
+                size_t j = R(r.st, i, k);
+                if (r.z[j] > zi)
+                    continue;  // higher receiver: does not contribute (lake spill)
+                if (r.z[j] == zi)
+                    equal_rec = true;
+                LD zj = static_cast<LD>(r.z[j]) - r.e[j];
+                LD d = D(r.st, i, k);
+                LD F = static_cast<LD>(r.kn[i]) * sc.dt * powl(static_cast<LD>(r.area[i]) * W(r.st, i, k), static_cast<LD>(sc.m));
+                LD drop = (static_cast<LD>(znew) - zj) / d;
+                if (linear)
                 {
-                    // Newton from the right on a convex function cannot overshoot: the solution
-                    // delta* > 0 solves delta + G delta^n = delta0 ; limited only if it is within
-                    // the tolerance/rounding of zero
-                    LD lo = 0, hi = delta0;
-                    for (int it = 0; it < 200; ++it)
-                    {
-                        LD mid = (lo + hi) / 2;
-                        if (mid + G * powl(mid, static_cast<LD>(sc.n)) > delta0)
-                            hi = mid;
-                        else
-                            lo = mid;
-                    }
-                    if (lo > margin + tol)
-                        c.fail("limited-without-need", at + ": erosion was limited although the solution keeps a drop of " + vg::fmt(static_cast<double>(lo)) + " to the receiver");
+                    Rres += F * drop;
+                    Fsum_lin += F / d;
+                    num_lin += F / d * zj;
                 }
                 else
                 {
-                    // n < 1: limited iff some Newton iterate is <= 0; the first step from delta0
-                    // is delta0 - f/f' ; accept when it is not clearly positive
-                    LD f0 = G * powl(delta0, static_cast<LD>(sc.n));
-                    LD fp = 1 + sc.n * f0 / delta0;
-                    LD d1s = delta0 - f0 / fp;
-                    if (d1s > margin + 1e-9L * fabsl(delta0))
-                        c.fail("limited-without-need", at + ": erosion was limited although the first Newton iterate " + vg::fmt(static_cast<double>(d1s)) + " is positive");
+                    Rres += F * powl(drop < 0 ? 0 : drop, static_cast<LD>(sc.n));
+                    F1 = F;
+                    d1 = d;
+                    zr1 = zj;
                 }
+                LD dr = fabsl(static_cast<LD>(znew) - zj) / d;
+                LD deriv = linear ? F / d : F * sc.n * powl(dr > 0 ? dr : 1e-300L, static_cast<LD>(sc.n) - 1) / d;
+                scale += deriv * (fabsl(static_cast<LD>(zi)) + fabsl(static_cast<LD>(znew)) + fabsl(zj));
+                deriv_sum += deriv;
+                LD delta0 = static_cast<LD>(zi) - zj;
+                LD strength = linear ? F / d : F / powl(d, static_cast<LD>(sc.n)) * powl(delta0 > 0 ? delta0 : 1e-300L, static_cast<LD>(sc.n) - 1);
+                if (strength > 1e-6L && strength < 1e6L)
+                    implicit_matters = true;
             }
-            continue;
+            std::string at = tag + "node " + std::to_string(i) + " (z=" + vg::fmt(zi) + ", erosion=" + vg::fmt(ei) + ", new=" + vg::fmt(znew) + ", floor=" + vg::fmt(fl) + ", n=" + vg::fmt(sc.n) + ")";
+            if (is_limited)
+            {
+                ++limited;
+                // erosion may be limited only when the model says the solution reaches the floor
+                LD margin = 64 * eps * (fabsl(static_cast<LD>(zi)) + fabsl(static_cast<LD>(fl))) + 4 * DBL_MIN;
+                if (equal_rec)
+                    continue;
+                if (linear)
+                {
+                    LD zstar = num_lin / (1 + Fsum_lin);
+                    // rounding of the quotient is relative to the magnitude of its operands
+                    LD m2 = margin + 64 * eps * fabsl(zstar);
+                    if (zstar > fl + m2)
+                        c.fail("limited-without-need", at + ": erosion was limited although the exact solution " + vg::fmt(static_cast<double>(zstar)) + " stays above the floor");
+                }
+                else
+                {
+                    LD delta0 = static_cast<LD>(zi) - zr1;
+                    LD G = F1 / powl(d1, static_cast<LD>(sc.n));
+                    if (sc.n > 1)
+                    {
+                        // Newton from the right on a convex function cannot overshoot: the solution
+                        // delta* > 0 solves delta + G delta^n = delta0 ; limited only if it is within
+                        // the tolerance/rounding of zero
+                        LD lo = 0, hi = delta0;
+                        for (int it = 0; it < 200; ++it)
+                        {
+                            LD mid = (lo + hi) / 2;
+                            if (mid + G * powl(mid, static_cast<LD>(sc.n)) > delta0)
+                                hi = mid;
+                            else
+                                lo = mid;
+                        }
+                        if (lo > margin + tol)
+                            c.fail("limited-without-need", at + ": erosion was limited although the solution keeps a drop of " + vg::fmt(static_cast<double>(lo)) + " to the receiver");
+                    }
+                    else
+                    {
+                        // n < 1: limited iff some Newton iterate is <= 0; the first step from delta0
+                        // is delta0 - f/f' ; accept when it is not clearly positive
+                        LD f0 = G * powl(delta0, static_cast<LD>(sc.n));
+                        LD fp = 1 + sc.n * f0 / delta0;
+                        LD d1s = delta0 - f0 / fp;
+                        if (d1s > margin + 1e-9L * fabsl(delta0))
+                            c.fail("limited-without-need", at + ": erosion was limited although the first Newton iterate " + vg::fmt(static_cast<double>(d1s)) + " is positive");
+                    }
+                }
+                continue;
+            }
+            if (equal_rec)
+            {
+                ++skipped_equal;
+                continue;
+            }
+            ++checked;
+            // relative rounding (64 eps on the magnitudes, amplified by the derivative of the implicit
+            // term) plus the absolute quantum of subnormal results (elevations near 5e-324 are exact
+            // only up to one subnormal increment, which the implicit term amplifies as well)
+            LD bound = 64 * eps * scale + 16 * 4.9406564584124654e-324L * deriv_sum + (linear ? 0 : static_cast<LD>(tol));
+            if (!(fabsl(Rres) <= bound))
+                c.fail(linear ? "linear-residual" : "newton-residual",
+                       at + ": residual of the backward-Euler equation " + vg::fmt(static_cast<double>(Rres)) + " exceeds " + vg::fmt(static_cast<double>(bound)) + (linear ? " (rounding)" : " (tolerance " + vg::fmt(tol) + " + rounding)"));
         }
-        if (equal_rec)
-        {
-            ++skipped_equal;
-            continue;
-        }
-        ++checked;
-        // relative rounding (64 eps on the magnitudes, amplified by the derivative of the implicit
-        // term) plus the absolute quantum of subnormal results (elevations near 5e-324 are exact
-        // only up to one subnormal increment, which the implicit term amplifies as well)
-        LD bound = 64 * eps * scale + 16 * 4.9406564584124654e-324L * deriv_sum + (linear ? 0 : static_cast<LD>(tol));
-        if (!(fabsl(Rres) <= bound))
-            c.fail(linear ? "linear-residual" : "newton-residual",
-                   at + ": residual of the backward-Euler equation " + vg::fmt(static_cast<double>(Rres)) + " exceeds " + vg::fmt(static_cast<double>(bound)) + (linear ? " (rounding)" : " (tolerance " + vg::fmt(tol) + " + rounding)"));
+        limited_total += limited;
+        if (limited < r.n_corr)
+            c.fail("n-corr", tag + "n_corr() = " + std::to_string(r.n_corr) + " but only " + std::to_string(limited) + " nodes carry the limited erosion value");
     }
-    if (limited < r.n_corr)
-        c.fail("n-corr", "n_corr() = " + std::to_string(r.n_corr) + " but only " + std::to_string(limited) + " nodes carry the limited erosion value");
     c.nontrivial = checked > 0 && implicit_matters;
-    if (limited)
+    if (limited_total)
         c.label("limited-nodes");
     if (skipped_equal)
         c.label("skipped-equal-receiver");
